@@ -63,7 +63,7 @@ def _events(scn):
         e[0] = err
         window(list(base_s), e, 'errno=%d' % err, 'errno', err)
     if hf == 'signal':
-        for sig in range(0, 41):
+        for sig in list(range(0, 41)) + [63, 64, 65, 66, 127, 128]:
             s = list(base_s)
             s[0] = sig
             window(s, [0, 0, 0, 0], 'signal=%d' % sig, 'signal', sig)
@@ -72,7 +72,7 @@ def _events(scn):
             s = list(base_s)
             s[0] = fam
             window(s, [0, 3, 0, 0], 'family=%d' % fam, 'family', fam)
-        for kind in range(0, 9):
+        for kind in list(range(0, 9)) + [0x800, 0x801, 0x802, 0x80000, 0x80001, 0x80801, 0x5, 0x10000001, 0x4 | 1]:
             s = list(base_s)
             s[1] = kind
             window(s, [0, 3, 0, 0], 'kind=%d' % kind, 'kind', kind)
@@ -132,6 +132,12 @@ def execute(scn):
     for i, (label, kind, num, _recs) in enumerate(evs):
         vals = {h: texts[h][i] for h in hosts}
         comparable = {h: v for h, v in vals.items() if not (isinstance(v, tuple) and v[0] == 'out-of-domain')}
+        if comparable and len(comparable) != len(vals):
+            # whether a number is convertible at all must not depend on the host either
+            viols.append({'tag': 'host-dependent-domain', 'sig': kind,
+                          'detail': '%s %s: decodes on %r, rejected on %r' % (name, label, {h: v for h, v in comparable.items()},
+                                                                                 sorted(set(vals) - set(comparable)))})
+            continue
         raised = {h: v for h, v in comparable.items() if isinstance(v, tuple)}
         if raised:
             viols.append({'tag': 'raised-on-host', 'sig': kind, 'detail': '%s %s: %r' % (name, label, raised)})
